@@ -184,4 +184,10 @@ def check(ctx, R):
     R.run("C07.e", rule_e, ctx)
     from . import c09_prims
     R.run("C07.f", lambda R, c: c09_prims.rule_ds_running(R, c, "C07.f"), ctx)
+    def _answers(R, c):
+        R.rule("C07.g", "R-PROV single definition of the event payload: encode_update_vN returns the bytes of the EncoderVN that "
+                        "write_blocks_from(before_state) and the delete set were written to, on every path")
+        for ver in ("1", "2"):
+            single_answer(R, "C07.g", c.yrs.fn("yrs::transaction::TransactionMut::encode_update_v" + ver), r"EncoderV%s::new$" % ver, "the bytes of its EncoderV%s" % ver)
+    R.run("C07.g", _answers, ctx)
     return {}
